@@ -33,6 +33,15 @@ class AnalysisBroken(Exception):
     failed, a floor was not met).  Never used to hide a verdict."""
 
 
+class GeneratorRejects(Exception):
+    """sbeppc, built from the tree under analysis, does not accept one of the schemas of the build set / corpus.  All
+    of them are valid (the repository's own build schemas and the corpus, accepted by the unchanged tree): rejecting
+    one is a verdict - a valid schema is refused, or the generator crashed - not an engine failure."""
+    def __init__(self, schema, rc, out):
+        Exception.__init__(self, "%s: status %s: %s" % (schema, rc, out))
+        self.schema, self.rc, self.out = schema, rc, out
+
+
 def log(*a):
     print(*a, file=sys.stderr, flush=True)
 
